@@ -1,4 +1,130 @@
+import LdarModel.Model.Cache
+import LdarModel.Generated.Cache
 import LdarModel.Driver.Proto
-/- driver stub: replaced by the component's real driver -/
-open LdarModel.Proto
-def main : IO Unit := runDriver (fun (_ : Unit) (_ : List String) => ((), "bad-op")) ()
+/-
+Driver for the generator-folder cache model, run with the table extracted from the source
+(`Generated.Cache.tbl`).
+  hist <B> <op>,<op>,...       B = number of emission files to show
+    op:  e<k>:<v>   edit input k (index into Input.all) to content number v
+         r<n>       uninterrupted run with n simulations
+         c<n>:<k>   run interrupted before its k-th file effect (k >= number of effects: completes)
+         t<n>:<k>   run interrupted inside the pickle.dump of its k-th file effect
+         d<file>    user deletes seeds|hashes|infra|count|ts
+    -> one record per op, joined by " | ":
+       <outcome> <effects> <mem> seeds=.. hashes=.. infra=.. count=.. ts=.. emis=[..]
+       outcome: - (no run) | done | fail (loud failure) | crash
+       effects: executed file effects, e.g. [S3,rm:count,H,I,E0,E1,C2,T]; a torn one is prefixed ~
+       mem:     generation of the infrastructure in memory when the run completed (vv 'g' gid) or -
+       file:    - absent, T torn, else content
+  table                         -> the extracted table (for the evidence)
+-/
+open LdarModel LdarModel.Cache LdarModel.Proto
+
+def tblD : Tbl := LdarModel.Generated.Cache.tbl
+
+def showVV (v : VV) : String :=
+  ".".intercalate (Input.all.map fun i => toString (v.get i))
+
+def showGen (g : Gen) : String := s!"{showVV g.vv}g{g.gid}"
+
+def showFile {α} (f : α → String) : FileSt α → String
+  | .absent => "-"
+  | .torn => "T"
+  | .ok a => f a
+
+def showStore (st : Store) : String :=
+  "{" ++ ";".intercalate (st.map fun p => s!"{p.1}={p.2}") ++ "}"
+
+def showFileId : FileId → String
+  | .seeds => "seeds" | .hashes => "hashes" | .infra => "infra" | .count => "count" | .ts => "ts"
+
+def showStep : Step → String
+  | .wrSeeds n => s!"S{n}"
+  | .wrHashes _ => "H"
+  | .wrInfra _ => "I"
+  | .wrEmis i _ => s!"E{i}"
+  | .wrCount n => s!"C{n}"
+  | .wrTs => "T"
+  | .rm f => s!"rm:{showFileId f}"
+
+def showDisk (b : Nat) (d : Disk) : String :=
+  s!"seeds={showFile toString d.seeds} hashes={showFile showStore d.hashes} infra={showFile showGen d.infra} " ++
+  s!"count={showFile toString d.count} ts={showFile (fun _ => "ok") d.ts} " ++
+  "emis=" ++ showList (fun i => showFile showGen (d.emis i)) (List.range b)
+
+def parseFileId : String → Option FileId
+  | "seeds" => some .seeds | "hashes" => some .hashes | "infra" => some .infra
+  | "count" => some .count | "ts" => some .ts | _ => none
+
+def parsePair (s : String) : Option (Nat × Nat) :=
+  match s.splitOn ":" with
+  | [a, b] => do some (← a.toNat?, ← b.toNat?)
+  | _ => none
+
+def parseOp (s : String) : Option Op :=
+  let rest := (s.drop 1).toString
+  match s.toList.head? with
+  | some 'e' => do
+    let (k, v) ← parsePair rest
+    let i ← Input.all[k]?
+    some (.edit i v)
+  | some 'r' => rest.toNat?.map .run
+  | some 'c' => (parsePair rest).map fun (n, k) => .crash n k
+  | some 't' => (parsePair rest).map fun (n, k) => .tear n k
+  | some 'd' => (parseFileId rest).map .del
+  | _ => none
+
+/-- outcome, executed effects, mem of one op (the state change itself is `exec`) -/
+def describe (s : St) : Op → String
+  | .edit _ _ => "- - -"
+  | .del _ => "- - -"
+  | .run n =>
+    let p := nextPlan tblD s n
+    let st := showList showStep p.steps
+    match p.outcome with
+    | some g => s!"done {st} {showGen g}"
+    | none => s!"fail {st} -"
+  | .crash n k =>
+    let p := nextPlan tblD s n
+    if k < p.steps.length then s!"crash {showList showStep (p.steps.take k)} -"
+    else match p.outcome with
+      | some g => s!"done {showList showStep p.steps} {showGen g}"
+      | none => s!"fail {showList showStep p.steps} -"
+  | .tear n k =>
+    let p := nextPlan tblD s n
+    match p.steps[k]? with
+    | some x =>
+      let torn := match x with | .rm _ => [] | _ => ["~" ++ showStep x]
+      s!"crash {showList id ((p.steps.take k).map showStep ++ torn)} -"
+    | none => match p.outcome with
+      | some g => s!"done {showList showStep p.steps} {showGen g}"
+      | none => s!"fail {showList showStep p.steps} -"
+
+def runHist (b : Nat) (ops : List Op) : String :=
+  let (_, recs) := ops.foldl (fun (acc : St × List String) op =>
+      let s' := exec tblD acc.1 op
+      (s', (describe acc.1 op ++ " " ++ showDisk b s'.disk) :: acc.2)) (St.init, [])
+  " | ".intercalate recs.reverse
+
+def showIOp : IOp → String
+  | .rm f => s!"rm:{showFileId f}" | .wrHashes => "H" | .wrInfra => "I"
+def showPhase : Phase → String
+  | .emisLoop => "emisLoop" | .count => "count"
+
+def showTbl (t : Tbl) : String :=
+  let pr (l : List (String × Input)) := showList (fun (p : String × Input) => s!"{p.1}={repr p.2}") l
+  s!"hashedFresh={pr t.hashedFresh} hashedRegen={pr t.hashedRegen} compared={pr t.compared} " ++
+  s!"required={showList showFileId t.required} freshOps={showList showIOp t.freshOps} " ++
+  s!"regenOps={showList showIOp t.regenOps} emisRegen={showList showPhase t.emisRegen} " ++
+  s!"emisExtend={showList showPhase t.emisExtend}"
+
+def step (_ : Unit) (toks : List String) : Unit × String :=
+  match toks with
+  | ["hist", b, ops] =>
+    match nat? b, (ops.splitOn ",").mapM parseOp with
+    | some b, some ops => ((), runHist b ops)
+    | _, _ => ((), "bad-op")
+  | ["table"] => ((), showTbl tblD)
+  | _ => ((), "bad-op")
+
+def main : IO Unit := runDriver step ()
